@@ -47,9 +47,13 @@ def _cp(v, memo=None):
         if isinstance(v, VDict):
             n = VDict(); memo[id(v)] = n
             n.d = {k: _cp(x, memo) for k, x in v.d.items()}
+            if getattr(v, "global_name", None):
+                n.global_name = v.global_name
         elif isinstance(v, VCList):
             n = VCList([]); memo[id(v)] = n
             n.items = [_cp(x, memo) for x in v.items]
+            if getattr(v, "global_name", None):
+                n.global_name = v.global_name
         else:
             n = VPy(v.cls); memo[id(v)] = n
             n.attrs = {k: _cp(x, memo) for k, x in v.attrs.items()}
